@@ -92,7 +92,8 @@ pub fn g_soup(s: &mut Src, max_frags: usize) -> String {
                 let ws = all_kw_words();
                 let w = &ws[s.below(ws.len())];
                 if s.coin(1, 4) { out.push_str(&w.to_ascii_lowercase()); } else { out.push_str(w); }
-                out.push_str(s.pick(&[" ", " ", ";", "", "(", "="]));
+                // ... also as the prefix of a longer identifier (no keyword then) and glued to other characters
+                out.push_str(s.pick(&[" ", " ", ";", "", "(", "=", "_id ", "2 ", "ly;", "x=", "\u{e9} ", ".", "1"]));
             }
             17 => {
                 // every macro keyword, with and without '('
@@ -100,7 +101,7 @@ pub fn g_soup(s: &mut Src, max_frags: usize) -> String {
                 let w = &ws[s.below(ws.len())];
                 out.push('%');
                 if s.coin(1, 4) { out.push_str(&w.to_ascii_lowercase()); } else { out.push_str(w); }
-                out.push_str(s.pick(&["(", "(", " ", "", ";", " (", "(a,", "(a)"]));
+                out.push_str(s.pick(&["(", "(", " ", "", ";", " (", "(a,", "(a)", "x(", "_1 ", "2;", "y(a)"]));
             }
             3 => {
                 if s.coin(1, 6) {
